@@ -1,5 +1,6 @@
 import InTotoModel.Model.Channel
 import InTotoModel.Generated.StrRequests
+import InTotoModel.Lemmas.JsonText
 /-
   C17 — Decoding does not depend on how the JSON reaches the parser.
 
@@ -7,9 +8,12 @@ import InTotoModel.Generated.StrRequests
   string request made by the crate's hand-written deserialisation code, with its kind.  The theorems:
   (1) no request in the current source is for a borrowed string; (2) a decoder all of whose requests
   are owned returns the same result on every channel and for every escape spelling.
-  serde / serde_json themselves are not modelled beyond `Model/Channel.lean`; the derived decoders and
-  the library are covered by the harness oracle (every document type × seven entry points × four
-  spellings must agree).
+  (3) the text reader (`Model/JsonText.lean`, a model of `serde_json::from_str::<Value>` tied to it by
+  the `readtext` correspondence) reads every spelling of a value - whatever white space or escape
+  sequences the text uses - as that value, so that everything downstream of the JSON tree sees the
+  same input.  serde's derive machinery is not modelled beyond `Model/Channel.lean`; the derived
+  decoders are covered by the harness oracle (every document type × seven entry points × several
+  spellings, valid and near-valid documents, must agree).
 -/
 namespace InToto.Channel
 open InToto.Generated
@@ -62,3 +66,31 @@ theorem c17_borrowed_request_depends_on_channel :
   decide
 
 end InToto.Channel
+
+namespace InToto.JsonText
+open InToto InToto.Json
+
+/-- (3) Two texts for the same content - differing in white space and in the escape sequences they
+    use - are accepted alike and yield the same JSON tree. -/
+theorem c17_whitespace_and_escapes_do_not_matter {v : JV} {t t' : Str} (h : TextSp v t) (h' : TextSp v t')
+    (hd : depth v ≤ 127) : readText t = readText t' ∧ readText t = some v := by
+  rw [readText_spelled h hd, readText_spelled h' hd]
+  exact ⟨rfl, rfl⟩
+
+/-- Every character of a string may be written raw, by its two-character escape, as `\uXXXX` in
+    either hex case, or (beyond the BMP) as a surrogate pair: the string token is the same. -/
+theorem c17_string_token_independent_of_escapes {s b b' : Str} (h : BodySp s b) (h' : BodySp s b') (rest : Str) :
+    lexStr ((b ++ '"' :: rest).length + 1) (b ++ '"' :: rest) [] = some (s, rest) ∧
+    lexStr ((b' ++ '"' :: rest).length + 1) (b' ++ '"' :: rest) [] = some (s, rest) :=
+  ⟨lexStr_quoted h rest, lexStr_quoted h' rest⟩
+
+/- Non-vacuity: four spellings of `é`, two of LF, a surrogate pair. -/
+example : CharSp 'é' ['é'] := .raw _ (by decide) (by decide) (by decide)
+example : CharSp 'é' ['\\', 'u', '0', '0', 'e', '9'] := .u4 _ _ _ _ _ (by decide) (by decide)
+example : CharSp 'é' ['\\', 'u', '0', '0', 'E', '9'] := .u4 _ _ _ _ _ (by decide) (by decide)
+example : CharSp '\n' ['\\', 'n'] := .short 'n' _ (by decide)
+example : CharSp '\n' ['\\', 'u', '0', '0', '0', 'A'] := .u4 _ _ _ _ _ (by decide) (by decide)
+example : CharSp '😀' ['\\', 'u', 'd', '8', '3', 'd', '\\', 'u', 'D', 'E', '0', '0'] :=
+  .pair _ _ _ _ _ _ _ _ _ 0xD83D 0xDE00 (by decide) (by decide) (by decide) (by decide) (by decide)
+
+end InToto.JsonText
